@@ -120,4 +120,499 @@ def C13(tier):
     )
 
 
-PROPS = {"C05": C05, "C07": C07, "C08": C08, "C10": C10, "C13": C13, "C14": C14}
+
+# ---------------------------------------------------------------------------
+# CPU engine: generated sequencer model + path harnesses
+
+import re as _re
+
+from . import driver as _driver
+from . import paths as _paths
+from . import seq as _seq
+
+PATH_FLAGS = [["--no-memory-safety-checks"], ["--no-overflow-checks"], ["--no-assertion-reach-checks"]]
+_gen_cache = {}
+
+
+def gen_cpu():
+    """Regenerate ALL generated harness modules from /repo's current source:
+    gen/seq_model.rs + gen/paths.rs (microprogram), gen/tr.rs (translator shapes), gen/asm.rs (C11 cases)."""
+    if "meta" in _gen_cache:
+        return _gen_cache
+    from . import trgen as _tr
+    w, b, c = _seq.read_table()
+    g = _seq.Graph(w, b, c)
+    src, meta, facts = _paths.generate(g)
+    tsrc, tmeta = _tr.generate()
+    asrc, ameta = gen_asm()
+    _driver.write_gen_mod({"seq_model": _seq.rust_model(w, b), "paths": src, "tr": tsrc, "asm": asrc})
+    _gen_cache.update(meta=meta, facts=facts, graph=g, tr_meta=tmeta, asm_meta=ameta)
+    return _gen_cache
+
+
+def _safe_gen():
+    try:
+        return gen_cpu(), None
+    except (AssertionError, _seq.SourceShape, SyntaxError) as e:
+        return None, "generator cannot handle the current microprogram source: %r" % (e,)
+
+
+QUICK_ARCH = _re.compile(
+    r"^(i_halt00|i_halt01_continue|i_nop_0|i_clr_0|i_ei_0|i_di_0|i_push_0|i_pop_0|i_pushf_0|i_popf_0|i_jr_0|i_jcs_[01]|i_jzc_1|"
+    r"i_jrnever_0|i_call_0|i_reti_0|i_com_0|i_neg_0|i_lsr_0|i_asr_0|i_rrc_0|i_inc_0|i_tst_0|i_dec_r_0|i_dec_mmi_0|i_add_rs1_0|"
+    r"i_adc_rs2_0|i_sub_rs0_0|i_and_rs3_0|i_or_rs1_0|i_xor_rs2_0|i_mul_rs0_\d|i_mul_entry_rs1|i_mul_iter_168_c1|i_mul_exit_168_c1|"
+    r"i_mul_exit_164_c0|i_div_rs2_\d|i_div_entry_rs0|i_div_iter_188|i_div_exit_188|i_src_r_0|i_src_mi_0|i_src_mmi_0|s_mov_r_0|"
+    r"s_mov_mmi_0|s_cmp_m_0|s_cmp_mmi_0|s_bitt_r_0|s_bits_mi_0|s_bitc_mmi_0|s_ldsp_0|s_ldfr_0)$")
+QUICK_TIMING = _re.compile(
+    r"^(t_nop_0|t_push_0|t_pop_0|t_jcs_[01]|t_call_0|t_reti_0|t_dec_mmi_0|t_add_rs1_0|t_and_rs3_0|t_mul_entry_rs1|t_mul_iter_168_c1|"
+    r"t_mul_exit_168_c1|t_div_iter_188|t_div_exit_188|t_src_mi_0|t_src_mmi_0|u_mov_r_0|u_mov_mmi_0|u_cmp_m_0|u_bitc_mmi_0|"
+    r"u_ldsp_0|t_int_entry_029)$")
+
+
+def _dom(m):
+    if m["kind"] in ("first", "halt"):
+        b = m["bytes"]
+        op = "opcode %s" % ("0x%02X" % b[0] if len(b) == 1 else "0x%02X..0x%02X (register bits symbolic)" % (b[0], b[-1]))
+        return ("boundary state at a fetch word, everything symbolic (R0-R7, flags, stale IR, pending commit, latch, flip-flop, wait, "
+                "240 RAM bytes, all I/O registers, arbitrary board, limits); %s; micro path %s [%s]"
+                % (op, " ".join("%03X" % a for a in m["path"]), ",".join(m["labels"])))
+    if m["kind"] == "second":
+        b = m["bytes"]
+        return ("arbitrary state at the second-byte fetch word 0x1E6 (R6 = source value, symbolic); second byte 0x%02X..0x%02X; "
+                "micro path %s" % (b[0], b[-1], " ".join("%03X" % a for a in m["path"])))
+    return "loop / entry segment from an arbitrary state satisfying the loop invariant (ghost product / dividend symbolic): " + m["kind"]
+
+
+def _path_harnesses(kind, quick_re):
+    """kind: 'arch' (fn) or 'timing' (tfn)"""
+    gc, err = _safe_gen()
+    hs = []
+    if err:
+        return hs, err
+    for m in gc["meta"]:
+        fn = m["fn"] if kind == "arch" else m["tfn"]
+        if not fn:
+            continue
+        if m["kind"] == "int-entry":
+            continue
+        quick = bool(quick_re.match(fn))
+        key = "%s.%s" % ("isa" if kind == "arch" else "cycles", m["cls"])
+        hs.append(Harness("gen::paths::" + fn, key=key, domain=_dom(m), timeout=2400 if not quick else 1500,
+                          tier="quick" if quick else "thorough",
+                          bounds="none on data; control path concrete (case split proved complete by the sequencer lemma)"))
+    return hs, None
+
+
+def _graph_post(pid, want):
+    """Facts over the proved sequencer model; each violated fact is confirmed natively step by step."""
+    def post(results):
+        gc, err = _safe_gen()
+        if err:
+            return {"inconclusive": [err]}
+        g = gc["graph"]
+        facts = _seq.analyse(g)
+        pf = gc["facts"]
+        ev = {"model_states": facts["reachable_control_states"], "model_transitions": facts["transitions"],
+              "visited_addresses": facts["visited_addresses"], "fetch_words": facts["fetch_words"],
+              "longest_loop_free_path": pf["longest_path"], "sampling_words": pf["sampling_words"],
+              "routines_without_sampling": pf["routines_without_sampling"],
+              "never_completing_first_bytes": facts["never_completing_first_bytes"],
+              "data_loop_first_bytes": sorted(facts["data_loops_first_bytes"]),
+              "extra_queries": 0, "extra_queries_ok": 0}
+        viol, known_hits, inconc = [], [], []
+        checks = []
+        undefined_first = list(range(0x4C, 0x50)) + list(range(0xE0, 0xF0))
+        defined_second = [b for b in range(256) if (b >> 4) in (1, 2, 3, 5, 6) or 0x40 <= b <= 0x47]
+        if "c09" in want:
+            checks += [
+                ("only programmed control words are visited", not facts["unprogrammed_visited"], facts["unprogrammed_visited"]),
+                ("every control state stays in the block of its opcode", not facts["block_violations"], facts["block_violations"][:5]),
+                ("first bytes that never complete are exactly 0x4C-0x4F, 0xE0-0xEF",
+                 facts["never_completing_first_bytes"] == undefined_first, facts["never_completing_first_bytes"]),
+                ("a defined second byte always completes",
+                 not [b for b in facts["never_completing_second_bytes"] if b in defined_second],
+                 [b for b in facts["never_completing_second_bytes"] if b in defined_second]),
+                ("the only data loops are MUL (0xB0-0xBF) and DIV (0xC0-0xCF)",
+                 sorted(facts["data_loops_first_bytes"]) == list(range(0xB0, 0xD0)), sorted(facts["data_loops_first_bytes"])),
+                ("no first byte reaches an unprogrammed word", not facts["unprogrammed_by_first_byte"], facts["unprogrammed_by_first_byte"]),
+            ]
+        if "c04" in want:
+            checks += [
+                ("the key flip-flop is sampled only by the last word of a routine", not pf["sampling_not_last"], pf["sampling_not_last"][:3]),
+                ("exactly EI, DI and RETI end without sampling", pf["routines_without_sampling"] == ["di", "ei", "reti"], pf["routines_without_sampling"]),
+                ("interrupt entry is the straight-line routine 010..017", pf["entry"] == list(range(0x10, 0x18)), pf["entry"]),
+            ]
+        ev["graph_facts"] = [{"fact": t, "holds": ok, "witness": (None if ok else w)} for t, ok, w in checks]
+        ev["extra_queries"] = len(checks)
+        ev["extra_queries_ok"] = sum(1 for _, ok, _ in checks if ok)
+        import json as _json
+        import os as _os
+        for t, ok, w in checks:
+            if not ok:
+                path = _os.path.join(_driver.EVID, "replays", "%s-graph-%s.json" % (pid, abs(hash(t)) % 10 ** 8))
+                _json.dump({"property": pid, "fact": t, "witness": w,
+                            "note": "fact computed over the sequencer model that h_seq::seq_edge_matches_model_* proves equal to the real edge"},
+                           open(path, "w"), indent=1)
+                seq_ok = all(results.get(n, {}).get("status") == "SUCCESS" for n in results if "seq_edge_matches_model" in n)
+                if seq_ok:
+                    viol.append((Harness("graph:" + t, key="graph." + t), path, "graph fact violated on the proved model: %s" % (w,)))
+                else:
+                    inconc.append("graph fact %r fails but the model is not proved equal to the code in this run" % t)
+        return {"evidence": ev, "violations": viol, "inconclusive": inconc, "known_hits": known_hits}
+    return post
+
+
+SEQ_H = [Harness("h_seq::seq_edge_matches_model_000_0ff", key="sequencer.model", timeout=1500,
+                 domain=ARB_RAW + "; Running, no wait; micro address symbolic in 0x000..0x0FF: next address, IR update, flip-flop == per-word model"),
+         Harness("h_seq::seq_edge_matches_model_100_1ff", key="sequencer.model", timeout=1500,
+                 domain=ARB_RAW + "; micro address symbolic in 0x100..0x1FF")]
+SAMEWORD_H = Harness("h_edge::edge_depends_on_address_only_through_word", key="edge.same-word", timeout=1500,
+                     domain=ARB_RAW + " twice, differing only in the micro address, both addresses symbolic with equal control words")
+NOLOG = "log crate built with max_level_off: trace!/warn! bodies (core::fmt) compiled out in the checked build"
+
+
+def C01(tier):
+    hs, err = _path_harnesses("arch", QUICK_ARCH)
+    hs = [SAMEWORD_H] + SEQ_H + hs
+    return dict(
+        harnesses=hs, kani_extra=PATH_FLAGS, generators=[lambda: _safe_gen()],
+        pre=(lambda: {"inconclusive": [err]}) if err else None,
+        bounds="no bound on data (all registers, flags, 240 RAM bytes, I/O, board symbolic); control: one harness per micro path of "
+               "each opcode class, the split being complete by the sequencer lemma (seq_edge_matches_model) + path enumeration over "
+               "the proved model; MUL/DIV by loop invariants + ranking functions instead of unrolling; quick tier = one path per "
+               "micro-routine family, thorough = every path of every defined first and second byte",
+        stubs=[NOLOG, "Kani memory-safety/overflow/reachability instrumentation off for these harnesses (panic freedom is C13's check); unwinding assertions on"],
+        assumptions=["machine stays Running during the instruction (halting paths are cut by assume and belong to C05)",
+                     "no interrupt taken at the end of the instruction (that branch is C04's entry lemma)",
+                     "L-wait lemma (C15/C05 checks): a pending wait swallows one edge and changes nothing else - used to skip wait edges",
+                     "reference ISA model isa_ref.rs; memory behind the CPU is the real Bus (C10/C14 verify it separately)"],
+        explanation="Each harness: arbitrary boundary state -> real trigger_clock_edge along one concrete micro path (control re-concretised "
+                    "by assume/set after every edge) -> registers R0-R5, flags, RAM, I/O registers, board and next fetched opcode compared "
+                    "with the ISA reference applied to the pre-state.",
+    )
+
+
+def C15(tier):
+    hs, err = _path_harnesses("timing", QUICK_TIMING)
+    gc, _ = _safe_gen()
+    extra = [Harness("h_edge::edge_wait_iff_ram_access", key="cycles.wait-rule", timeout=1500,
+                     domain=ARB_RAW + "; Running, no wait: wait' <=> new word accesses an address <= 0xEF"),
+             Harness("h_edge::wait_edge_only_clears_wait", key="cycles.wait-edge", domain=ARB_RAW + "; wait pending")]
+    if gc:
+        for m in gc["meta"]:
+            if m["kind"] == "int-entry":
+                extra.append(Harness("gen::paths::" + m["tfn"], key="cycles.int-entry", timeout=1500, domain="interrupt entry routine",
+                                     tier="quick" if QUICK_TIMING.match(m["tfn"]) else "thorough"))
+    return dict(
+        harnesses=extra + SEQ_H + hs, kani_extra=PATH_FLAGS, generators=[lambda: _safe_gen()],
+        pre=(lambda: {"inconclusive": [err]}) if err else None,
+        bounds="as C01: data unbounded, control path per harness; access addresses symbolic so the 0xEF/0xF0 boundary is decided by the solver",
+        stubs=[NOLOG, "Kani memory-safety/overflow/reachability instrumentation off (C13 covers panics); unwinding assertions on"],
+        assumptions=["micro-steps per instruction form = length of the path in the proved sequencer model",
+                     "number of RAM accesses per form = the reference model's access count (isa_ref waits)"],
+        explanation="edges between two boundaries == micro-steps + (wait pending at start) + one per access to 0x00-0xEF, per path, all data symbolic.",
+    )
+
+
+def C09(tier):
+    gc, err = _safe_gen()
+    hs = list(SEQ_H)
+    if gc:
+        for m in gc["meta"]:
+            if m["kind"] in ("mul-iter", "div-iter", "mul-entry", "div-entry"):
+                hs.append(Harness("gen::paths::" + m["fn"], key="sequencer.loop-termination", timeout=1500, domain=_dom(m),
+                                  tier="quick" if ("168_c1" in m["fn"] or "188" in m["fn"] or "rs1" in m["fn"]) else "thorough"))
+    return dict(
+        harnesses=hs, kani_extra=PATH_FLAGS, generators=[lambda: _safe_gen()],
+        pre=(lambda: {"inconclusive": [err]}) if err else None, post=_graph_post("C09", {"c09"}),
+        bounds="none: one edge from every state for all 512 words (micro address symbolic), then exhaustive graph search over the proved "
+               "abstract control space (address x IR, all flag/condition/flip-flop/byte inputs); MUL/DIV termination by ranking lemmas",
+        stubs=[NOLOG],
+        assumptions=["graph search is done by the driver over the model; the model is equal to the code by the two solver queries of this run"],
+        explanation="next micro address / IR update / flip-flop of the real edge == per-word specialised model for all states; C09's facts computed on the model.",
+    )
+
+
+def C04(tier):
+    gc, err = _safe_gen()
+    hs = [Harness("h_edge::edge_interrupt_flipflop", key="int.flipflop", timeout=1500, domain=ARB_RAW + "; Running, no wait"),
+          Harness("h_edge::key_interrupt_sets_flipflop_iff_enabled", key="int.key", domain=ARB_RAW)] + SEQ_H
+    if gc:
+        for m in gc["meta"]:
+            if m["kind"] == "int-entry":
+                hs.append(Harness("gen::paths::" + m["fn"], key="int.entry", timeout=1500,
+                                  domain="arbitrary state with an 'int:' word current; entry routine 010..017 vs reference (push FR, push PC, IE and upper bits cleared, PC := 2)"))
+            if m["fn"] == "i_reti_0":
+                hs.append(Harness("gen::paths::i_reti_0", key="int.reti", timeout=1500, domain=_dom(m)))
+    hs.append(SAMEWORD_H)
+    return dict(
+        harnesses=hs, kani_extra=PATH_FLAGS, generators=[lambda: _safe_gen()],
+        pre=(lambda: {"inconclusive": [err]}) if err else None, post=_graph_post("C04", {"c04"}),
+        bounds="none on data or on the trigger cycle: the flip-flop lemmas hold for every edge of every state, so the trigger may fall on any "
+               "cycle (inside multi-cycle instructions, waits, MUL/DIV loops); the end-to-end 'uninterrupted == interrupted' statement is "
+               "derived from these obligations + C01 (independence from stale R6/R7), it is not run as one bounded scenario",
+        stubs=[NOLOG],
+        assumptions=["'enabled' = MICR bit 0 set when the key is pressed and IE set at the first sampling word after it",
+                     "ISR transparency uses C01's per-instruction frame (arbitrary scratch registers at every boundary)"],
+        explanation="flip-flop set/persist/clear lemmas, sampling points from the proved model, entry routine and RETI against the reference.",
+    )
+
+
+TR = "compiler::verif_hooks::step(next, &inst) = real Translator::push_instruction on a fresh translator with symbolic address counter; "
+
+
+HEAVY_DST = ("m", "abs", "abslab")
+HEAVY_SRC = ("m", "abs", "abslab", "imm", "immlab")
+
+
+def _tr_harnesses(groups, tier_filter=None):
+    gc, err = _safe_gen()
+    hs = []
+    if err:
+        return hs
+    for m in gc["tr_meta"]:
+        if m["group"] not in groups:
+            continue
+        fn = m["fn"]
+        if m["group"] == "two-op-leaf":
+            _, cls, d, s_ = fn.split("_", 3)
+            if d in HEAVY_DST and s_ in HEAVY_SRC:
+                continue  # CBMC runs out of memory (>13 GB) on these 15 shapes per class: stated as outside the claim
+        dom = {"one-byte": "real push_instruction; registers and address counter symbolic",
+               "jumps": "real push_instruction; label L; relative-offset closure applied to a symbolic target",
+               "ld-st": "real push_instruction; LD/ST form; registers, constant, counter symbolic",
+               "ldsp-ldfr": "real push_instruction; source shape concrete, registers/constant/counter symbolic",
+               "settings": "real push_instruction; setting reported, nothing emitted",
+               "two-op-leaf": "real leaf encoder (compile_instruction_mov / from_bases_dst_and_src) for this destination x source shape; registers and constants symbolic; full byte content",
+               "two-op-step": "real push_instruction for this shape: number of bytes and address-counter step",
+               "two-op-dispatch": "real push_instruction, register/register shape: opcode base and leaf encoder chosen for the class (full content)"}[m["group"]]
+        hs.append(Harness("gen::tr::" + fn, key="enc." + fn, domain=TR + dom, timeout=3000 if m.get("heavy") else 900,
+                          tier="quick" if m["quick"] else "thorough"))
+    return hs
+
+
+def C02(tier):
+    hs = _tr_harnesses({"one-byte", "jumps", "ld-st", "ldsp-ldfr", "settings", "two-op-leaf", "two-op-step", "two-op-dispatch"})
+    hs += [
+        Harness("h_tr::tr_org_forward", key="layout.org", domain=TR + ".ORG forward, skip <= 4", bounds="skip <= 4"),
+        Harness("h_tr::tr_byte", key="layout.byte", domain=TR + ".BYTE n, n <= 4", bounds="n <= 4"),
+        Harness("h_tr::tr_db_n1", key="layout.db", domain=TR + ".DB with 1 item (symbolic)", bounds="1 item"),
+        Harness("h_tr::tr_db_n2", key="layout.db", domain=TR + ".DB with 2 items", bounds="2 items"),
+        Harness("h_tr::tr_db_n3", key="layout.db", domain=TR + ".DB with 3 items", bounds="3 items"),
+        Harness("h_tr::tr_db_n4", key="layout.db", domain=TR + ".DB with 4 items", bounds="4 items"),
+    ]
+    return dict(
+        harnesses=hs, kani_extra=[["-Z", "stubbing"]], mem_kb=20 * 1024 * 1024, jobs=10,
+        bounds="one line at a time from an arbitrary address counter (inductive step for programs of any length); AST shape concrete per "
+               "harness, registers/constants/counter symbolic; .DB with 1..4 items (item count concrete per harness); .DW is NOT covered (its drain/flat_map/collect pipeline does not finish in CBMC even for one word: >20 min), .BYTE n and .ORG skip <= 4, "
+               "counter + emitted bytes <= 255. Two-operand class: full content through the leaf encoders for 33 of the 48 destination x source "
+               "shapes per class (the 15 shapes 'memory-address destination x operand-byte/memory source' exhaust CBMC's memory and are covered "
+               "only by their source-only and destination-only halves), byte count + counter step through push_instruction for the 13 pairwise "
+               "shapes, opcode base/leaf dispatch through push_instruction on the register/register shape",
+        stubs=[NOLOG, "std::hash::RandomState::new -> fixed keys (kani::stub; removes getrandom from HashMap::new() in Translator::new(), hashing is never executed)",
+               "core::mem::forget on instruction/step values at the end of each harness (drop glue of String/Vec is not the subject)"],
+        assumptions=["NOT covered: the label table (HashMap<String,u8> insert/lookup, case handling), finish()'s substitution and the pairing of "
+                     "lines with bytes in ByteCode::lines - not encodable by CBMC within reach (probe: >7 min for one label)",
+                     "NOT covered: .DW (big-endian words) - flat_map over a drained Vec does not finish in CBMC",
+                     "reference encoding table in h_tr.rs / trgen.py (opcode bases, mode/register fields)"],
+        explanation="emitted ByteOrLabel sequence == reference encoding; counter' == counter + bytes emitted; label references carry the right name; "
+                    "relative-jump closure == target - (next + 2) mod 256.",
+    )
+
+
+def C06(tier):
+    gc, err = _safe_gen()
+    hs = []
+    demo = {"r": None, "m": "#! mrasm\n DEC (R0)\n", "mi": "#! mrasm\n DEC (R0+)\n", "mmi": "#! mrasm\n DEC ((R0+))\n",
+            "imm": "#! mrasm\n DEC 5\n", "immlab": "#! mrasm\nL:\n DEC L\n", "abs": "#! mrasm\n DEC (5)\n", "abslab": "#! mrasm\nL:\n DEC (L)\n"}
+    if gc:
+        for m in gc["tr_meta"]:
+            if m["group"] == "c06-dec":
+                sh = m["shape"]
+                hs.append(Harness("gen::tr::" + m["fn"], key="step.inst=Dec(non-register)" if sh != "r" else "step.dec-register",
+                                  domain=TR + "DEC with source shape " + sh, confirm=demo[sh]))
+            if m["group"] == "c06-counter":
+                hs.append(Harness("gen::tr::" + m["fn"], key="step.counter-overflow", residual="gen::tr::c06_counter_room_residual",
+                                  domain=TR + "a four-byte MOV at every counter value 0..255",
+                                  confirm="#! mrasm\n .ORG 254\n LD R0, 1\n"))
+    hs += _tr_harnesses({"two-op-step"})
+    hs += [
+        Harness("h_tr::c06_org_any_address", key="step.inst=AsmOrigin(addr<next)", residual="h_tr::c06_org_forward_residual",
+                domain=TR + ".ORG to any address relative to any counter (forward fill <= 6)", confirm="#! mrasm\n NOP\n NOP\n .ORG 1\n"),
+        Harness("h_load::load_any_size", key="load.len>240", timeout=2400, residual="h_load::load_fits_residual",
+                domain="Machine::load with an image of symbolic length 0..=260",
+                bounds="image length <= 260, unwind 262", confirm="#! mrasm\n .ORG 240\n NOP\n"),
+    ]
+    return dict(
+        harnesses=hs, kani_extra=[["-Z", "stubbing"]],
+        bounds="translator: one step from any counter, every operand shape of the two-operand class (pairwise), DEC with all 8 source shapes; "
+               "load: image length <= 260 bytes",
+        stubs=[NOLOG, "std::hash::RandomState::new -> fixed keys (kani::stub)"],
+        assumptions=["'parser-accepted' is over-approximated by 'any AST shape the types allow'; every counterexample is then confirmed through the "
+                     "public path (source text -> AsmParser::parse -> Translator::compile -> Machine::load) before it counts",
+                     "NOT covered: label-case crash (expect(\"Labels must be defined\")) lives in the HashMap half - not encodable"],
+        explanation="panic freedom (Kani default checks) of the translator step and of Machine::load.",
+    )
+
+
+def C03(tier):
+    import json as _json
+    import subprocess as _sp
+
+    def pre():
+        n = "quick" if tier == "quick" else "thorough"
+        p = _sp.run(["python3-vt", "/verif/peg/check.py", n], stdout=_sp.PIPE, stderr=_sp.PIPE, text=True)
+        if p.returncode != 0:
+            return {"inconclusive": ["peg/check.py failed: " + p.stderr[-800:]]}
+        r = _json.loads(p.stdout)
+        import os as _os
+        viol = []
+        for v in r["violations"]:
+            path = _os.path.join(_driver.EVID, "replays", "C03-%s.json" % abs(hash(_json.dumps(v, sort_keys=True))) )
+            _json.dump({"property": "C03", "finding": v, "replay": "echo <line> | kani-lib/target-native/debug/parse_lines"}, open(path, "w"), indent=1)
+            viol.append((Harness("peg:" + v.get("kind", "?"), key="peg." + v.get("kind", "?")), path, str(v)))
+        q = r["queries"]
+        need = [x for x in q if x.get("expected") != "sat"]
+        ok = sum(1 for x in need if x["result"] == "unsat") + sum(1 for x in q if x.get("expected") == "sat" and x["result"] == "sat")
+        ev = {"extra_queries": len(q), "extra_queries_ok": ok, "smt_queries": q,
+              "programs": r.get("validated", 0), "disagreements_checked": len(r["violations"]),
+              "corpus_lines_validated_real_vs_interpreter": r.get("validated"),
+              "corpus_lines_validated_through_smt_encoding": r.get("validated_through_encoding"),
+              "solver": "z3 %s (python API), non-incremental query per obligation" % __import__("subprocess").run(
+                  ["python3-vt", "-c", "import z3;print(z3.get_version_string())"], stdout=_sp.PIPE, text=True).stdout.strip()}
+        return {"evidence": ev, "violations": viol, "inconclusive": r["inconclusive"]}
+    n = (9, 14) if tier == "quick" else (12, 20)
+    return dict(
+        harnesses=[], pre=pre, level="other",
+        bounds="line length <= %d characters, token lemmas (numeric ranges, label, register) <= %d characters; alphabet ASCII without CR/LF plus one "
+               "class standing for any non-ASCII character; header line <= 12" % n,
+        assumptions=["lines are independent in this grammar (no rule crosses eol), so a file is accepted iff header and every line match to their end",
+                     "NOT covered (pest runtime / Rust side cannot be executed symbolically): AST construction by parse_*, 'never panics', the 40-label "
+                     "limit, undefined-label check, Unicode handling of the Rust side",
+                     "encoder validated on every run: repo programs + edge literals through the real parser, a concrete PEG interpreter and the SMT encoding"],
+        explanation="PEG semantics of the real grammar file (ordered choice, greedy repetition, lookahead) encoded for a symbolic string; "
+                    "query: exists s, |s| <= N: PEG(s) != REF(s) with REF a declarative description (mnemonic table x operand shapes x "
+                    "semantic numeric ranges). unsat = same language up to N.",
+        trusted_base=["z3", "peg/encode.py PEG->SMT translation (validated against the real parser on a corpus each run)", "peg/mrasm_ref.py"],
+    )
+
+
+
+ASM_CASES = [
+    # name, prog (None = symbolic data byte), at10, sp, regs, flags, key, phases
+    ("nop_add", [0x02, 0x64, 0x02], [], 0xE0, [None, None, None], 0, False, 9),
+    ("push_pop", [0x10, 0x15, 0x02], [], 0xE0, [None, None, None], 0, False, 16),
+    ("ld_st", [0xFB, None, 0x10, 0xF0, 0x1F, 0x80, 0x02], [], 0xE0, [None, None, None], 0, False, 22),
+    ("call_ret", [0x28, 0x10, 0x02], [0x17], 0xE0, [None, None, None], 0, False, 20),
+    ("jr_taken", [0x20, 0x02, 0x02, 0x02, 0x64], [], 0xE0, [None, None, None], 0, False, 9),
+    ("jcs_not_taken", [0x21, 0x05, 0x64], [], 0xE0, [None, None, None], 0, False, 9),
+    ("jcs_taken", [0x21, 0x01, 0x02, 0x64], [], 0xE0, [None, None, None], 1, False, 9),
+    ("mul", [0xB4, 0x02], [], 0xE0, [5, None, None], 0, False, 16),
+    ("div", [0xC4, 0x02], [], 0xE0, [7, 2, None], 0, False, 18),
+    ("stop", [0x64, 0x01, 0x64], [], 0xE0, [None, None, None], 0, False, 8),
+    ("err00", [0x64, 0x00, 0x64], [], 0xE0, [None, None, None], 0, False, 8),
+    ("stack_overflow", [0x10, 0x64], [], 0xD1, [None, None, None], 0, False, 8),
+    ("ei_key", [0x08, 0x02, 0x64], [0x2C], 0xE0, [None, None, None], 0, True, 24),
+    ("mov_mmi", [0xFD, 0x19, 0x64], [], 0xE0, [None, 0x20, 0x30], 0, False, 18),
+]
+
+
+def gen_asm():
+    src = "// GENERATED by vlib/props.py (C11 cases)\n#![allow(clippy::all)]\nuse crate::h_asm::*;\n\n"
+    meta = []
+    for name, prog, at10, sp, regs, flags, key, phases in ASM_CASES:
+        ps = ", ".join("None" if b is None else "Some(0x%02X)" % b for b in prog)
+        rs = ", ".join("None" if b is None else "Some(0x%02X)" % b for b in regs)
+        src += "const P_%s: &[Option<u8>] = &[%s];\nconst T_%s: &[u8] = &[%s];\n" % (name.upper(), ps, name.upper(), ", ".join("0x%02X" % b for b in at10))
+        src += "fn case_%s() -> Case<'static> {\n    Case { prog: P_%s, at10: T_%s, sp: 0x%02X, regs: [%s], flags: %d, key: %s }\n}\n" % (
+            name, name.upper(), name.upper(), sp, rs, flags, "true" if key else "false")
+        for k in range(phases):
+            fn = "asm_%s_k%02d" % (name, k)
+            src += "#[cfg_attr(kani, kani::proof)]\n#[cfg_attr(kani, kani::unwind(64))]\npub fn %s() {\n    asm_step_case(&case_%s(), %d)\n}\n" % (fn, name, k)
+            meta.append((fn, name, k))
+    return src, meta
+
+
+def C11(tier):
+    from . import trgen as _tr
+    src, meta = gen_asm()
+
+    def sweep(vals):
+        """Confirmation of an abstract counterexample on the real code: every fixed program x phase of
+        gen/asm.rs is run natively (assembly step vs explicit clock stepping) with seeded data values."""
+        import json as _json, os as _os, random as _random
+        rnd = _random.Random(int(_os.environ.get("VERIF_SEED", "0") or 0))
+        bad = []
+        for fn, name, k in meta:
+            v = [[rnd.randrange(256)] for _ in range(240)] + [[rnd.randrange(256)] for _ in range(3)] + [[rnd.randrange(240), 0, 0, 0, 0, 0, 0, 0]]
+            vp = _os.path.join(_driver.EVID, "replays", "C11-sweep.values.json")
+            _json.dump(v, open(vp, "w"))
+            out = _driver.native_replay("gen::asm::" + fn, vp, "dev")
+            if out.startswith("REPRODUCED"):
+                bad.append({"case": fn, "values": v, "native": out})
+                break
+        return (bool(bad), {"native_sweep_cases": len(meta), "failing": bad})
+    hs = []
+    for kk, tr in ((6, "quick"), (12, "thorough")):
+        h = Harness("h_asm::asm_step_abstract_k%d" % kk, key="asm-step.equiv", timeout=1500, tier=tr,
+                    domain="the clock edge replaced by an ARBITRARY deterministic automaton (16 abstract states, symbolic next-state, micro-address "
+                           "and run-state tables, symbolic start state); Machine::trigger_key_clock in Assembly mode vs an explicit single-edge "
+                           "loop; every run prefix of <= %d edges of any program/phase/wait pattern/halt position is an instance" % kk,
+                    bounds="a step of at most %d clock edges; unwind 18" % kk)
+        h.custom_confirm = sweep
+        hs.append(h)
+
+    def post(results):
+        gc, err = _safe_gen()
+        if err:
+            return {"inconclusive": [err]}
+        facts = _seq.analyse(gc["graph"])
+        dead = facts["never_completing_first_bytes"]
+        import subprocess as _sp, os as _os, json as _json
+        ev = {"never_completing_first_bytes": dead, "extra_queries": 0, "extra_queries_ok": 0}
+        viol, inconc, hits = [], [], []
+        known, _ = _driver.load_known()
+        known = [k for k in known if k["property"] == "C11"]
+        expected = list(range(0x4C, 0x50)) + list(range(0xE0, 0xF0))
+        exe = _os.path.join(_driver.KL, "target-native", "debug", "replay")
+        _driver.native_build("dev")
+        confirmed = []
+        for b in dead:
+            try:
+                out = _sp.run([exe, "--asm-step", str(b), "5000"], text=True, stdout=_sp.PIPE, timeout=60).stdout.strip()
+            except Exception as e:
+                out = "ERR %r" % (e,)
+            if out.startswith("NO-BOUNDARY"):
+                confirmed.append(b)
+        ev["undefined_opcode_step_hangs_confirmed_natively"] = confirmed
+        if confirmed:
+            path = _os.path.join(_driver.EVID, "replays", "C11-asm-step-undefined-opcode.json")
+            _json.dump({"property": "C11", "bytes": confirmed,
+                        "replay": "kani-lib/target-native/debug/replay --asm-step <byte> 5000",
+                        "explanation": "the sequencer model (proved equal to the code by C09's lemma) has a dead self-loop for these first bytes; "
+                                       "Machine::trigger_key_clock in Assembly mode loops until is_instruction_done() and never returns"}, open(path, "w"), indent=1)
+            extra = [b for b in confirmed if b not in expected]
+            k = [x for x in known if x["key"] == "asm-step.undefined-opcode"]
+            if k and not extra:
+                hits.append((Harness("graph:asm-step", key="asm-step.undefined-opcode"), k[0], path))
+            else:
+                viol.append((Harness("graph:asm-step", key="asm-step.undefined-opcode"), path,
+                             "assembly step does not return for first bytes %s" % ["0x%02X" % b for b in (extra or confirmed)]))
+        return {"evidence": ev, "violations": viol, "inconclusive": inconc, "known_hits": hits}
+    return dict(
+        harnesses=hs + SEQ_H, kani_extra=[["-Z", "stubbing"]], generators=[lambda: _safe_gen()], post=post,
+        bounds="equivalence: steps of at most 6 (quick) / 12 (thorough) clock edges, for an arbitrary deterministic edge function; longest "
+               "instruction incl. waits outside MUL/DIV is 8 micro-steps + 5 waits = 13 edges, MUL/DIV longer: those steps are outside the "
+               "bound; termination: from the sequencer graph (all 256 first bytes, all inputs) + MUL/DIV ranking (C09)",
+        stubs=[NOLOG, "RawMachine::trigger_clock_edge -> arbitrary deterministic automaton (kani::stub): the stepping loop is checked against "
+                      "every possible behaviour of the edge; the edge itself is C01/C05/C09's subject"],
+        assumptions=["step mode is not an input of the clock edge: trigger_clock_edge is a method of RawMachine, which does not contain the step mode (type-level fact)",
+                     "the real edge is a deterministic function of the RawMachine state (no clock, no randomness, no I/O in it)",
+                     "a counterexample of the abstract lemma is confirmed on the real code by a native sweep over fixed programs x phases before it is reported"],
+        explanation="Machine::trigger_key_clock (Assembly) == explicit single-edge stepping to the next boundary, for every deterministic edge "
+                    "function up to the bound; non-termination for undefined opcodes is derived from the proved sequencer graph and confirmed natively.",
+    )
+
+
+PROPS = {"C01": C01, "C02": C02, "C03": C03, "C04": C04, "C05": C05, "C06": C06, "C07": C07, "C08": C08, "C09": C09,
+         "C10": C10, "C11": C11, "C13": C13, "C14": C14, "C15": C15}
